@@ -253,8 +253,9 @@ def part_I(ctx, seedval, only=None):
                                 continue
                             idxs.append(it)
                 idxs = list(dict.fromkeys(idxs))
-                if len(kb) > 1 and ctx.quick:
-                    idxs = idxs[:len(per_dim[0])] + rng.sample(idxs[len(per_dim[0]):], min(10, len(idxs) - len(per_dim[0])))
+                if len(kb) > 1:
+                    k_ = 10 if ctx.quick else 30
+                    idxs = idxs[:len(per_dim[0])] + rng.sample(idxs[len(per_dim[0]):], min(k_, len(idxs) - len(per_dim[0])))
                 rowcol = [(), (("S", 1, None, None), ("S", None, 2 * t, None))]
                 if t == 1 and not ctx.quick:
                     rowcol += [(("S", None, None, 2), ("T", (2, 0)))]
